@@ -716,18 +716,11 @@ func init() {
 		"strings.Repeat":     native(strings.Repeat),
 		"strings.Index":      native(strings.Index),
 		"strings.LastIndex":  native(strings.LastIndex),
-		"strings.ToLower":    native(strings.ToLower),
-		"strings.ToUpper":    native(strings.ToUpper),
 		"strings.Count":      native(strings.Count),
 		"strings.EqualFold":  native(strings.EqualFold),
 		"strings.Fields":     native(strings.Fields),
 		"strconv.Itoa":       native(strconv.Itoa),
 		"strconv.Atoi":       native(strconv.Atoi),
-		"strconv.FormatInt":  native(strconv.FormatInt),
-		"strconv.ParseInt":   native(strconv.ParseInt),
-		"strconv.FormatBool": native(strconv.FormatBool),
-		"strconv.ParseBool":  native(strconv.ParseBool),
-		"strconv.FormatFloat": native(strconv.FormatFloat),
 		"strconv.ParseFloat":  native(strconv.ParseFloat),
 		"strconv.Quote":       native(strconv.Quote),
 		"unicode.IsUpper":     native(unicode.IsUpper),
